@@ -66,11 +66,54 @@ type Parser interface {
 	Parse(string) ([]Type, ParserError)
 }
 
+// openCount tracks what keeps a statement open across input lines: blocks,
+// array literals and string literals. It follows the lexer: brackets, braces
+// and quotes inside string literals and comments do not count.
+type openCount struct {
+	blocks, brackets  int
+	inString, escaped bool
+}
+
+func (o *openCount) scan(line string) {
+	for i := 0; i < len(line); i++ {
+		ch := line[i]
+		if o.inString {
+			switch {
+			case o.escaped:
+				o.escaped = false
+			case ch == '\\':
+				o.escaped = true
+			case ch == '"':
+				o.inString = false
+			}
+			continue
+		}
+		switch ch {
+		case ';':
+			if nl := strings.IndexByte(line[i:], '\n'); nl >= 0 {
+				i += nl
+				continue
+			}
+			return
+		case '"':
+			o.inString = true
+		case '{':
+			o.blocks++
+		case '}':
+			o.blocks--
+		case '[':
+			o.brackets++
+		case ']':
+			o.brackets--
+		}
+	}
+}
+
+func (o *openCount) open() bool { return o.blocks > 0 || o.brackets > 0 || o.inString }
+
 // Loop is the repl-loop.
 func Loop(r lineReader, p Parser, vm *vm.Type, doOut bool) {
-	blocksOpen := 0
-	quotesOpen := 0
-	bracketsOpen := 0
+	open := openCount{}
 	input := ""
 	sep := ""
 
@@ -80,17 +123,20 @@ func Loop(r lineReader, p Parser, vm *vm.Type, doOut bool) {
 			break
 		}
 
-		blocksOpen += strings.Count(line, "{") - strings.Count(line, "}")
-		quotesOpen += strings.Count(line, "\"") - strings.Count(line, "\\\"")
-		bracketsOpen += strings.Count(line, "[") - strings.Count(line, "]")
+		open.scan(sep + line)
 		input += sep + line
 		sep = "\n"
 
-		if blocksOpen == 0 && quotesOpen%2 == 0 && bracketsOpen == 0 {
+		if !open.open() {
 			processInput(input, p, vm, doOut)
+			open = openCount{}
 			sep = ""
 			input = ""
 		}
+	}
+
+	if input != "" { // the input ended inside a block, array or string literal
+		processInput(input, p, vm, doOut)
 	}
 }
 
